@@ -571,6 +571,12 @@ class FnView:
     def place_expr(self, pl, depth=0):
         l = pl['l']
         projs = [p for p in pl['p']]
+        # locals saved in a coroutine frame keep their debug names
+        if self.upvars:
+            for n in range(len(projs), 0, -1):
+                nm = self.upvars.get((l, tuple(projs[:n])))
+                if nm is not None:
+                    return ('var', nm, tuple(p for p in projs[n:] if p != '*'))
         # closure upvars: `.^<captured place>` restarts the path at the captured variable
         for n, pj in enumerate(projs):
             if pj.startswith('.^'):
@@ -578,12 +584,6 @@ class FnView:
                 segs = cap.split('.')
                 rest = tuple('.' + s for s in segs[1:]) + tuple(p for p in projs[n + 1:] if p != '*')
                 return ('var', segs[0], rest)
-        # locals saved in a coroutine frame keep their debug names
-        if self.upvars:
-            for n in range(len(projs), 0, -1):
-                nm = self.upvars.get((l, tuple(projs[:n])))
-                if nm is not None:
-                    return ('var', nm, tuple(p for p in projs[n:] if p != '*'))
         base = self.local_expr(l, depth + 1)
         rest = tuple(p for p in projs if p != '*')
         if not rest:
@@ -921,12 +921,23 @@ def fold(e):
 
 def var_inits(view, name):
     """Direct whole-variable assignments to the user variable `name` (for `mut` locals that
-    expression resolution deliberately does not see through)."""
+    expression resolution deliberately does not see through; also variables saved in a
+    coroutine frame, which are places with projections)."""
     out = []
     for (i, j, s) in view.stmts():
-        if s['k'] == 'assign' and not s['lhs']['p'] and view.varnames.get(s['lhs']['l']) == name:
-            out.append((i, view.rvalue_expr(s['rv'], i)))
+        if s['k'] != 'assign':
+            continue
+        if not s['lhs']['p']:
+            if view.varnames.get(s['lhs']['l']) == name:
+                out.append((i, view.rvalue_expr(s['rv'], i)))
+        elif view.upvars:
+            pe = view.place_expr(s['lhs'])
+            if pe == ('var', name, ()):
+                out.append((i, view.rvalue_expr(s['rv'], i)))
     for cs in view.calls(skip_log=False):
-        if not cs.dest['p'] and view.varnames.get(cs.dest['l']) == name:
+        if not cs.dest['p']:
+            if view.varnames.get(cs.dest['l']) == name:
+                out.append((cs.bb, ('call', cs.nfn, tuple(cs.arg(i) for i in range(len(cs.args))), cs.bb)))
+        elif view.upvars and view.place_expr(cs.dest) == ('var', name, ()):
             out.append((cs.bb, ('call', cs.nfn, tuple(cs.arg(i) for i in range(len(cs.args))), cs.bb)))
     return out
